@@ -842,8 +842,12 @@ std::string sqf::parser::preprocessor::impl_default::instance::parse_ppinstructi
                         if (!arg.empty())
                         {
                             args.emplace_back(std::move(arg));
-                            arg_start_index = arg_index + 1;
                         }
+                        else if (!ended)
+                        { // A parameter without a name: nothing can refer to it
+                            log(err::EmptyArgument(fileinfo.to_diag_info()));
+                        }
+                        arg_start_index = arg_index + 1;
                     }
                     // Special magic for '#define macro\'
                     content = (trim(line.substr(line[arg_start_index] == ' ' ? arg_start_index + 1 : arg_start_index)));
